@@ -1,5 +1,6 @@
 from __future__ import annotations
 
+import codecs
 import logging
 import pathlib
 import sys
@@ -127,13 +128,16 @@ class SourceFile:
     def __init__(self, filename: pathlib.Path):
         self.replacements: list[Replacement] = []
         self.filename = filename
-        self.source = self.filename.read_text("utf-8")
+        self.source = self.filename.read_text("utf-8-sig")
 
     def rewrite(self):
         new_code = self.new_code()
 
+        # a byte order mark is no part of the code (utf-8-sig), but it is kept
+        has_bom = self.filename.read_bytes().startswith(codecs.BOM_UTF8)
+
         with open(self.filename, "bw") as code:
-            code.write(new_code.encode())
+            code.write((codecs.BOM_UTF8 if has_bom else b"") + new_code.encode())
 
     def virtual_write(self):
         self.source = self.new_code()
@@ -156,7 +160,7 @@ class SourceFile:
 
         self._check()
 
-        code = self.filename.read_text("utf-8")
+        code = self.filename.read_text("utf-8-sig")
 
         format_whole_file = enforce_formatting() or code == format_code(
             code, self.filename
